@@ -145,6 +145,7 @@ class CUnit:
         res.subject.update(function=self.fname, route=route, sha256_16=sha(ftext), defines=list(self.defines),
                            dropped="comments, attributes, pragmas; preprocessor branches not selected by the defines")
         ex = self.exec_cls(nodes, self.fname, contracts=self.callees, prefix=self.uid + "/", options=self.options)
+        ex.tu_text = text
         st = State()
         if self.err_ghost:
             st.err = z3.IntVal(0)      # precondition: no exception pending on entry
